@@ -50,6 +50,7 @@ EXC = [
     (r'^<file::FileHash as std::convert::From<u128>>::from$', r'write_u128$', 'writes into an in-memory buffer'),
     (r'^cache::HashCacheFlusher::start::\{closure#0\}$', r'flush$', 'periodic cache flusher: the final close() reports errors'),
     (r'^hasher::evict_page_cache', r'posix_fadvise$', 'advice to the kernel only'),
+    (r'^group::stdout_file_id$', r'fstat$', 'probe of where the standard output goes: if it cannot be examined, no file is excluded from the scan on its account'),
 ]
 
 
